@@ -53,7 +53,44 @@ def import_block_future(i0: int, i1: int, use_sel: int, in_function: bool) -> bo
     return fin(_import_block(i0, i1, use_sel, in_function, "remove-future-imports"))
 
 
+DEFAULTS = ["[]", "{}", "[1]", "set()"]
+
+
+def mutable_params(default: int, stub_annotated: bool, impl_annotated: bool, has_stub: bool, has_optional: bool, second_fn: bool) -> bool:
+    """fix-mutable-params (complete real pipeline; it introduces `typing.Optional`) on a module made of an optional
+    @overload stub and an implementation whose parameter has a mutable default, annotated or not, with or without an
+    existing `Optional` import and a second function: the rewritten module parses and executes without reading an
+    unbound name (every name the edit starts using is imported by the same edit).
+    post: _
+    """
+    from crosshair.tracers import NoTracing
+
+    from harness import impfam
+    from vlib.core import fin
+
+    i = 0
+    while i < 3:
+        if default % 4 == i:
+            break
+        i += 1
+    d = DEFAULTS[i]
+    head = "from typing import overload\n" + ("from typing import Optional\n" if has_optional else "")
+    body = ""
+    if has_stub:
+        body += "@overload\ndef f(a%s = %s) -> int: ...\n" % (": list" if stub_annotated else "", d)
+    body += "def f(a%s = %s):\n    return len(a)\n" % (": list" if impl_annotated else "", d)
+    if second_fn:
+        body += "def g(b = %s):\n    return b\n" % d
+    src = head + body + "r = f()\n"
+    with NoTracing():
+        before, after, out = impfam.run("fix-mutable-params", src)
+    if before[0] != "val":
+        return fin(True)
+    return fin(after[0] == "val")
+
+
 def warmup():
+    mutable_params(0, True, False, True, False, False)
     import_block_order(7, 0, 0, False)
     import_block_unused(8, 2, 2, True)
     import_block_future(0, 4, 0, False)
@@ -63,15 +100,15 @@ SPEC = {
     "property": "C02",
     "level": "translation_validation",
     "files": ["src/core_codemods/invert_boolean_check.py", "src/core_codemods/combine_calls_base.py", "src/core_codemods/combine_startswith_endswith.py", "src/core_codemods/combine_isinstance_issubclass.py"],
-    "functions": ["the complete real pipeline of invert-boolean-check, combine-startswith-endswith, combine-isinstance-issubclass (see C08)", "the complete real pipelines of order-imports, unused-imports and remove-future-imports (codemodder.codemods.transformations.clean_imports / remove_unused_imports) on selector-built import blocks"],
+    "functions": ["the complete real pipeline of invert-boolean-check, combine-startswith-endswith, combine-isinstance-issubclass (see C08)", "the complete real pipeline of fix-mutable-params (AddImportsVisitor) on selector-built function definitions", "the complete real pipelines of order-imports, unused-imports and remove-future-imports (codemodder.codemods.transformations.clean_imports / remove_unused_imports) on selector-built import blocks"],
     "bounds": {"quick": "the C08 quick grammar", "thorough": "the C08 thorough grammar"},
     "assumptions": [
         "binding environment fixed by the ORIGINAL program: every name it reads is bound, every other name is unbound; z3 searches runtime values for which the rewritten program evaluates an unbound name (raises NameError) while the original does not",
         "a fresh name in a branch no value assignment reaches is not reported (never a false alarm)",
     ],
     "stubs": ["FileContext with a non-existent path"],
-    "outside": ["import insertion by hardening codemods (AddImportsVisitor, NameResolutionMixin)", "RemoveUnusedVariables, sql-parameterization clean-up", "function / class scopes (need whole-transformer runs with scope metadata; nothing symbolic remains once the program is concrete)"],
+    "outside": ["import insertion by codemods other than fix-mutable-params and the four of C16's hardening family", "RemoveUnusedVariables, sql-parameterization clean-up", "function / class scopes (need whole-transformer runs with scope metadata; nothing symbolic remains once the program is concrete)"],
     "rule": "as C08; the query is restricted to outcome kind NameError",
     "drivers": [name_errors],
-    "xh": [__import__("vlib.main", fromlist=["Xh"]).Xh(fn, 500, 900) for fn in ("import_block_order", "import_block_unused", "import_block_future")],
+    "xh": [__import__("vlib.main", fromlist=["Xh"]).Xh(fn, 500, 900) for fn in ("import_block_order", "import_block_unused", "import_block_future")] + [__import__("vlib.main", fromlist=["Xh"]).Xh("mutable_params", 300, 600)],
 }
